@@ -555,15 +555,23 @@ func c09Rebuild(c *Ctx, a *sketchAnchors) {
 			}
 			// nil-guards: a part may be skipped only under `pb.X == nil`
 			for _, part := range []string{"PositiveValues", "NegativeValues"} {
-				if _, has := merged[part]; !has {
-					isNil, found := pathCond(p, func(t *Term) bool {
-						x, _, ok := nilTest(t)
-						return ok && x.Op == "field" && x.Sym == part
-					})
-					_ = isNil
-					if !found {
-						bad = part + " not merged and not nil-tested"
+				// evidence on the path about pb.<part>: +1 known nil, −1 known non-nil, 0 not tested
+				ev := 0
+				for _, cd := range p.Conds {
+					if x, neq, ok := nilTest(cd.Term); ok && x.Op == "field" && x.Sym == part {
+						if neq == cd.Taken {
+							ev = -1
+						} else {
+							ev = 1
+						}
 					}
+				}
+				_, has := merged[part]
+				switch {
+				case has && ev != -1:
+					bad = part + " merged without evidence that it is non-nil (a message without that side must be skipped, not dereferenced)"
+				case !has && ev != 1:
+					bad = part + " not merged although not known to be nil"
 				}
 			}
 			z := fl[a.zeroField]
